@@ -149,7 +149,7 @@ def run(prog, R):
     ex = R.anchor(prog, S2S + "expr_to_asg_texpr")
     if ex:
         ps, _ = paths(prog, ex.npath)
-        ok = False
+        ok, nid = True, 0
         for p in ps:
             if arm_of(prog, p, EXPR_ENUM, "expr") == "Identifier" or any("lookup_identifier" in c[0] for c in p.calls):
                 r = deep_strip(p.env.get(0))
@@ -159,8 +159,11 @@ def run(prog, R):
                 if te[0] == "call" and te[1].endswith("TExpr::new"):
                     e, ty = te[2]
                     li = [c for c in p.calls if c[0].endswith("lookup_identifier")]
-                    ok = len(li) == 1 and "lookup_identifier" in show(e) and "lookup_identifier" in show(ty) and show(e).count("lookup_identifier") == 1
-        R.ob("C08.2-identifier-type", "identifier expression = (symbol, type) of one lookup", ok, ex.at, "")
+                    nid += 1
+                    ok = ok and len(li) == 1 and "lookup_identifier" in show(e) and "lookup_identifier" in show(ty) and show(e).count("lookup_identifier") == 1
+                elif arm_of(prog, p, EXPR_ENUM, "expr") == "Identifier":
+                    ok = False
+        R.ob("C08.2-identifier-type", "identifier expression = (symbol, type) of one lookup", ok and nid >= 1, ex.at, f"{nid} identifier paths")
     mt = prog.body(A + "MeasureExpression::to_texpr")
     if mt:
         D = {n: d for n, d in prog.enum_variants(T + "Type")}
